@@ -444,6 +444,7 @@ theorem SS_step (g : G) (op : Op) (h : SS g) : SS (step g op).1 := by
   | addIfSource o n i => exact SS_addIfSource _ _ _ _ h
   | addIfSink o n i => exact SS_addIfSink _ _ _ _ h
   | disconnect w o => exact SS_disconnect _ _ _ h
+  | wires p n k => exact forEach_pred (P := SS) _ (fun g x hg => SS_newWire _ _ _ _ hg) _ _ h
 
 theorem SS_empty : SS {} := ⟨fun pid pt w wr h => by simp at h, fun pid pt w h => by simp at h⟩
 
